@@ -399,11 +399,13 @@ func (c *consumerGroup) consumerExpired(consumerID string) func() {
 		if err := c.memberExpiredHandler(c.id, consumerID); err != nil {
 			c.logger.Errorf("Failed to remove consumer %s from consumer group %s: %v",
 				consumerID, c.id, err.Error())
-			// Reset the timer so we can try again later.
-			timer := c.startMemberTimer(consumerID)
+			// Reset the timer so we can try again later, unless the consumer
+			// is gone by now (it left the group while it was expiring, which
+			// is also why it could not be removed).
 			c.mu.Lock()
-			consumer := c.members[consumerID]
-			consumer.timer = timer
+			if consumer, ok := c.members[consumerID]; ok {
+				consumer.timer = c.startMemberTimer(consumerID)
+			}
 			c.mu.Unlock()
 		}
 	}
